@@ -283,6 +283,13 @@ func nonRepeating(symbols []pr.NamedString, firstValue, value int) (string, bool
 	return "", false
 }
 
+// The representations of the symbolic and additive systems have a length linear
+// in the value : the specification lets a user agent use the fallback style
+// when a representation would be longer than 60 characters.
+// A symbol is repeated at most [maxRepetitions] times, so that a huge counter value
+// does not allocate gigabytes.
+const maxRepetitions = 10000
+
 // Implement the algorithm for `type: symbolic`.
 func symbolic(symbols []pr.NamedString, value int) (string, bool) {
 	if len(symbols) == 0 {
@@ -295,7 +302,11 @@ func symbolic(symbols []pr.NamedString, value int) (string, bool) {
 	L := len(symbols)
 	index := (value - 1) % L
 	repeat := (value-1)/L + 1
-	return strings.Repeat(symbol(symbols[index]), repeat), true
+	s := symbol(symbols[index])
+	if repeat > maxRepetitions && s != "" {
+		return "", false
+	}
+	return strings.Repeat(s, repeat), true
 }
 
 // Implement the algorithm for `type: alphabetic`.
@@ -352,7 +363,11 @@ func additive(symbols []pr.IntNamedString, value int) (string, bool) {
 			continue
 		}
 		repetitions := value / vs.Int
-		parts = append(parts, strings.Repeat(symbol(vs.NamedString), repetitions))
+		s := symbol(vs.NamedString)
+		if repetitions > maxRepetitions && s != "" {
+			return "", false
+		}
+		parts = append(parts, strings.Repeat(s, repetitions))
 		value -= vs.Int * repetitions
 		if value == 0 {
 			return strings.Join(parts, ""), true
